@@ -33,7 +33,18 @@ INFO = dict(
               "five as_non_alignment, from_vector / compose_after_from_vector_inplace, TransformChain._apply, Affine.decompose, "
               "DiscreteAffine.decompose and the Scale factory) and proved equal to the model functions the theorems "
               "are about, method dispatch going through the regenerated method-resolution table "
-              "+ class table, method table and gate table regenerated from the live classes with `decide` obligations "
+              "+ round 3, with harness/py2lean2.py: the NUMPY-LEVEL BODIES of the family translated from source on every run "
+              "(Generated/C03Src.lean, 42 definitions): the properties n_dims / linear_component / translation_component / "
+              "rotation_matrix / scale, _set_h_matrix of Homogeneous / Affine / AlignmentAffine with their checks (copy and "
+              "skip_checks as variables), set_rotation_matrix of Rotation / AlignmentRotation, __init__ of Homogeneous, "
+              "Affine, Similarity, Rotation, Translation, UniformScale, NonUniformScale, the seven init_identity, "
+              "_from_vector_inplace of the ten classes that define one (quaternion formula included), as_non_alignment "
+              "once more through the translated constructors and properties; proved equal, for all arguments, to fromVec, "
+              "ctorMat, ctorRotation, ctorTranslation, ctorUniformScale, ctorNonUniformScale, identityOf, anaCtor "
+              "(GenProps/C03Src.lean); the vocabulary is a small exact model of the numpy words the bodies use "
+              "(Core/C03Src.lean: arrays with a run-time shape, negative indices, slice assignment with broadcasting, "
+              "fill_diagonal cycling, reshape in C and Fortran order, np.allclose evaluated exactly in Q) "
+              "+ class table, two method tables and gate table regenerated from the live classes with `decide` obligations "
               "+ model/implementation correspondence on all class pairs, cross-dimension pairs, nested and "
               "self-containing chains, aliased operands, unusual dtypes / memory layouts and random programs",
     level_text="Theorems, for every dimension and all parameter values: composition law for compose_before/after "
@@ -61,14 +72,32 @@ INFO = dict(
                "are tied to /repo by the regenerated tables (`classTable_ok`, `methodTable_ok`, `otherGates_ok`), the "
                "function bodies by the translation obligations (`genLadder_eq`, `entryCompose_eq`, `entryInplace_eq`, "
                "`entryFromVector_eq`, `genHomogInplace_eq`, `genChainInplace_eq`, `sup_fam_ana`, `genScale_eq`, "
-               "`entryDecompose_eq`), the behaviour by the correspondence, and an independent oracle decides the "
-               "property on the real objects.",
+               "`entryDecompose_eq`; round 3: `fromVec_src`, `famFromVec_src`, `ctorMat_src`, `ctorRotation_src`, "
+               "`ctorTranslation_src`, `ctorUniformScale_src`, `ctorNonUniformScale_src`, `identityOf_src`, `anaCtor_src`, "
+               "the five property obligations, `methodTable2_ok`, `ctorDefaults_ok`), the behaviour by the correspondence, "
+               "and an independent oracle decides the property on the real objects.  Round 3 theorems: exactly which "
+               "arguments each constructor refuses and what an accepted object holds (`ctor_refusals`), what the "
+               "constructors guarantee and what they do not look at (`ctor_honest_discrete`, `ctor_unchecked_witness`, "
+               "`ctor_tolerance_witness`: honesty of atoms is a hypothesis, not a gift of the constructors), every "
+               "init_identity is the identity of its base class and neutral for composition on both sides "
+               "(`identity_neutral`), the checked constructor calls inside the ladder and inside as_non_alignment are the "
+               "plain words of the ladder model in 2-D / 3-D and raise in other dimensions (`ladder_ctor_justified`, "
+               "`ladder_ctor_refuses_other_dims`, `ana_ctor_justified`); integer-typed and single-precision h_matrix "
+               "operands: np.dot under numpy's promotion stores the exact product and never narrows the receiver's dtype "
+               "(`promote_semilattice`, `dot_exact`, `inplace_dtype_law`), casting the product back to the receiver's "
+               "dtype breaks the law (`cast_to_receiver_breaks_law`), and the dtype calculus the driver runs next to every "
+               "program is sound along every program (`stepT_sound`, `prog_dtype_total`), along which an integer-typed "
+               "object keeps holding an integer matrix and the classes that build their own matrix stay float64 "
+               "(`ladder_int`, `ladder_cls`, `stepT_typed`, `prog_dtype_exact`).",
     level_note="Trusted: Lean kernel; axioms propext/Classical.choice/Quot.sound; harness/extract_c03.py, this "
-               "harness and the driver's parser; numpy's dot/svd (the SVD contract L = U diag(s) V, U and V "
+               "harness and the driver's parser; the translators harness/py2lean.py / py2lean2.py with the rule tables of "
+               "harness/trans_c03.py; numpy's dot/svd (the SVD contract L = U diag(s) V, U and V "
                "orthogonal, s > 0 is checked numerically on every decomposition case); float rounding is outside the "
                "model (exact rationals; comparison 1e-9 relative plus an error bound from the product of operand "
                "norms).",
-    rule="a case is one statement executed on the real objects (a pair / cross-dimension / from-vector / nested-chain / "
+    rule="a case is one constructor call (classes Homogeneous .. NonUniformScale, dimensions 1-4, checks on / off), one "
+         "init_identity call (12 classes x 4 dimensions, counted as trivial), or "
+         "one statement executed on the real objects (a pair / cross-dimension / from-vector / nested-chain / "
          "self-containing-chain / dtype-and-layout / aliased-operand / identity-operand battery statement or one step "
          "of a random program of 2-8 compose calls over a store of 3-7 atoms, three programs in ten mixing 2-D and 3-D "
          "atoms with WithDims slicers in every spelling), one from_vector matrix, one apply or one decomposition; "
@@ -83,11 +112,18 @@ INFO = dict(
              "'Rotation' honesty is orthogonality of the linear part (what menpo's Rotation class admits, mirrored "
              "alignments included); decompose_reflection states when a piece of a decomposition is improper",
              "from_vector of Translation / NonUniformScale given a vector of another length: the model follows numpy's "
-             "broadcasting / cycling as coded; this is compared on from_vector directly (a refusal would be accepted "
-             "as well) and such vectors are not used inside programs",
-             "the translated entry points treat copy(), _from_vector_inplace (numpy code per class, modelled as "
-             "fromVec and compared case by case), np.dot, np.linalg.svd and np.allclose as vocabulary: their meaning "
-             "is the hand-written model's, tied by the correspondence",
+             "broadcasting / cycling as coded (now proved equal to the translated source, `fromVec_src`); this is "
+             "compared on from_vector directly (a refusal would be accepted as well) and such vectors are not used "
+             "inside programs",
+             "the translated bodies treat copy() (arrays are values: no aliasing of h_matrix arrays in the model), np.dot, "
+             "np.linalg.svd, np.allclose inside the Scale factory (a Boolean input) and the numpy words of "
+             "Core/C03Src.lean (eye, fill_diagonal, slice assignment, reshape, outer, the exact-rational np.allclose of "
+             "the bottom-row check) as vocabulary: their meaning is the hand-written model's, tied by the correspondence "
+             "(from_vector, constructor and init_identity cases); an index outside an array (IndexError) is not "
+             "modelled (every subscript of the translated bodies is guarded by a length test)",
+             "dtypes: float32 / float64 rounding is outside the model (they hold exact rationals), overflow of int64 "
+             "products is not modelled (entries are small); dtypes other than int64 / float32 / float64 have no word in "
+             "the model (programs that meet one are not compared on dtypes)",
              "a chain appended to something that contains it: the model says 'no denotation at any fuel', the "
              "implementation raises RecursionError on apply; tied by the correspondence, not judged by the oracle "
              "(the property does not speak about it)"],
@@ -115,7 +151,12 @@ THEOREMS = [NS + t for t in [
     # round 2: class algebra, expression trees, WithDims spellings, self-composition, decomposition folded back
     "join_comm_assoc", "join_least", "join_idem_strip", "joinAll_perm", "kind_eq_joinAll", "expr_class_join",
     "compose_with_itself", "decompose_fold_class", "withIdx_eq_withDims", "normIndex_spec", "withSlice_eq_withDims",
-    "applyRef_eq_flat"]]
+    "applyRef_eq_flat",
+    # round 3: constructors and init_identity (model tied to the source by GenProps/C03Src.lean), dtypes
+    "ctor_refusals", "bottomClose_of_isAffine", "ctor_tolerance_witness", "ctor_honest_discrete",
+    "ctor_unchecked_witness", "identity_neutral", "ladder_ctor_justified", "ladder_ctor_refuses_other_dims",
+    "ana_ctor_justified", "promote_semilattice", "dot_exact", "inplace_dtype_law", "cast_to_receiver_breaks_law",
+    "stepT_sound", "prog_dtype_total", "ladder_int", "ladder_cls", "stepT_typed", "prog_dtype_exact"]]
 
 FAMILY = extract_c03.ORDER
 BASE = {"AlignmentAffine": "Affine", "AlignmentSimilarity": "Similarity", "AlignmentRotation": "Rotation",
@@ -1133,6 +1174,7 @@ def run_program(ctx, recipes, stmts, cid, table_wire, pending, what, aux=None):
             ctx.count("generator:dishonest-atom-skipped")
             return None
     init_cells = [w.wire_cell(i) for i in range(len(w.objs))]
+    init_tags = [dtype_tag(o) for o in w.objs]
     X = {n: probe_points(ctx.rng, n) for n in (1, 2, 3, 4)}
     rp = {"atoms": recipes, "statements": [list(s) for s in stmts], "what": what,
           "python": script_of(recipes, stmts)}
@@ -1143,7 +1185,37 @@ def run_program(ctx, recipes, stmts, cid, table_wire, pending, what, aux=None):
     pending.append((cid, model_line(cid, table_wire, init_cells, stmts), results, final, list(w.mag), rp))
     if aux is not None:
         queue_apply_checks(ctx, w, cid, table_wire, rp, aux)
+        queue_dtype_check(ctx, w, cid, table_wire, init_cells, init_tags, stmts, rp, aux)
     return w
+
+
+DTYPES = ("int64", "float32", "float64")
+
+
+def dtype_tag(o):
+    """the model's word for the dtype of the array a family object holds ('-': no family object; None: a dtype the
+    model has no word for)"""
+    if not is_family(o):
+        return "-"
+    n = o.h_matrix.dtype.name
+    return n if n in DTYPES else None
+
+
+def queue_dtype_check(ctx, w, cid, table_wire, init_cells, init_tags, stmts, rp, aux):
+    """the dtype of every h_matrix after the program, model (`runT`: numpy's promotion, never narrowed) against the
+    real arrays.  Programs with an integer-typed or single-precision atom are always compared, the others one in four."""
+    final_tags = [dtype_tag(o) for o in w.objs]
+    if None in init_tags or None in final_tags:
+        ctx.count("dtype-check:skipped-unmodelled-dtype")
+        return
+    unusual = any(t in ("int64", "float32") for t in init_tags)
+    if not unusual and ctx.rng.random() >= 0.25:
+        return
+    aux["lines"].append("%s_dt dtprog %s S %d %s T %d %s P %d %s" % (
+        cid, table_wire, len(init_cells), " ".join(init_cells), len(init_tags), " ".join(init_tags),
+        len(stmts), " ".join(stmt_wire(s) for s in stmts)))
+    aux.setdefault("dtype", {})[cid + "_dt"] = (init_tags, final_tags, rp)
+    ctx.count("dtype-check:%s" % ("unusual-atom" if unusual else "float64-only"))
 
 
 def gen_vector(rng, o, wrong=False, lenient=False):
@@ -1768,6 +1840,141 @@ def decompose_cases(ctx, n, lines, expect):
         expect[cid] = ([(kind_of(p), p.h_matrix.copy()) for p in pieces], h0, mag, rp)
 
 
+def ctor_error_kind(e):
+    """the model's word for what a constructor raised: ValueError (menpo's own or numpy's) = shape, a call with the
+    wrong arguments (TypeError) = noMethod"""
+    if isinstance(e, ValueError):
+        return "shape"
+    if isinstance(e, (TypeError, AttributeError)):
+        return "noMethod"
+    return "other:" + type(e).__name__
+
+
+def ctor_cases(ctx, n, lines, expect):
+    """the constructors of the seven non-alignment classes against the model's `ctorMat` / `ctorRotation` /
+    `ctorTranslation` / `ctorUniformScale` / `ctorNonUniformScale`: dimensions 1 to 4, checks on and off, matrices
+    with an exact, a slightly off (1e-10: within numpy's tolerance) and a clearly wrong bottom row, square matrices
+    that are no rotations, scale factors that are zero — which arguments are refused, and what an accepted object holds"""
+    import numpy as np
+    import menpo.transform as mt
+    rng = ctx.rng
+    for k in range(n):
+        kind = rng.choice(["mat", "mat", "mat", "rot", "trans", "uscale", "nuscale"])
+        d = rng.choice([1, 2, 2, 3, 3, 4])
+        skip = rng.random() < 0.3
+        cid = "ct%d" % k
+        rp = {"kind": kind, "d": d, "skip_checks": skip}
+        try_call = None
+        if kind == "mat":
+            cls = rng.choice(["Homogeneous", "Affine", "Similarity"])
+            lin = lin_matrix(rng, d)
+            t = [dy(rng, 8, 1) for _ in range(d)]
+            bottom = [Fraction(0)] * d + [Fraction(1)]
+            variant = rng.choice(["exact", "exact", "tiny", "wrong", "wrong-corner", "projective"])
+            j = rng.randrange(d)
+            if variant == "tiny":
+                bottom[j] = Fraction(1, 10 ** 10)
+            elif variant == "wrong":
+                bottom[j] = Fraction(rng.choice([1, -1, 2]), rng.choice([1, 4, 1000]))
+            elif variant == "wrong-corner":
+                bottom[d] = Fraction(rng.choice([0, 2, 3]), rng.choice([1, 2])) if rng.random() < 0.8 else Fraction(1001, 1000)
+            elif variant == "projective":
+                bottom = [Fraction(rng.randint(-2, 2), 16) for _ in range(d)] + [Fraction(1)]
+            M = np.array([[float(x) for x in row] for row in hmat(lin, t, bottom)])
+            rp.update(cls=cls, matrix=M.tolist(), bottom_row=variant)
+            lines.append("%s ctor mat %d %s %d %s" % (cid, d, cls, int(skip), " ".join(common.fq(float(x)) for x in M.ravel())))
+            try_call = lambda: getattr(mt, cls)(M, skip_checks=skip)
+            py = "menpo.transform.%s(np.array(%r), skip_checks=%r)" % (cls, M.tolist(), skip)
+        elif kind == "rot":
+            R = np.array([[float(x) for x in row] for row in (rot_matrix(rng, d) if d in (2, 3) and rng.random() < 0.5
+                                                                else lin_matrix(rng, d))])
+            rp.update(matrix=R.tolist())
+            lines.append("%s ctor rot %d %d %s" % (cid, d, int(skip), " ".join(common.fq(float(x)) for x in R.ravel())))
+            try_call = lambda: mt.Rotation(R, skip_checks=skip)
+            py = "menpo.transform.Rotation(np.array(%r), skip_checks=%r)" % (R.tolist(), skip)
+        elif kind == "trans":
+            t = np.array([float(dy(rng, 8, 1)) for _ in range(d)])
+            rp.update(vector=t.tolist())
+            lines.append("%s ctor trans %d %d %s" % (cid, d, int(skip), " ".join(common.fq(float(x)) for x in t)))
+            try_call = lambda: mt.Translation(t, skip_checks=skip)
+            py = "menpo.transform.Translation(np.array(%r), skip_checks=%r)" % (t.tolist(), skip)
+        elif kind == "uscale":
+            sc = float(rng.choice([Fraction(1, 2), Fraction(3, 2), Fraction(2), Fraction(-2), Fraction(0), Fraction(1)]))
+            rp.update(scale=sc)
+            lines.append("%s ctor uscale %d %d %s" % (cid, d, int(skip), common.fq(sc)))
+            try_call = lambda: mt.UniformScale(sc, d, skip_checks=skip)
+            py = "menpo.transform.UniformScale(%r, %d, skip_checks=%r)" % (sc, d, skip)
+        else:
+            v = np.array([float(rng.choice([Fraction(1, 2), Fraction(3, 2), Fraction(2), Fraction(-1), Fraction(0)]))
+                          for _ in range(d)])
+            rp.update(vector=v.tolist())
+            lines.append("%s ctor nuscale %d %d %s" % (cid, d, int(skip), " ".join(common.fq(float(x)) for x in v)))
+            try_call = lambda: mt.NonUniformScale(v, skip_checks=skip)
+            py = "menpo.transform.NonUniformScale(np.array(%r), skip_checks=%r)" % (v.tolist(), skip)
+        rp["python"] = "import sys; sys.path[:0]=[%r]\nimport numpy as np, menpo.transform\nt = %s" % (common.REPO, py)
+        try:
+            o = try_call()
+            got = ("ok", kind_of(o), np.asarray(o.h_matrix, dtype=float).copy())
+        except Exception as e:
+            got = ("e", ctor_error_kind(e))
+        expect[cid] = (got, rp)
+        ctx.case(("ctor", kind, d, skip, json.dumps(rp, sort_keys=True)), nontrivial=True,
+                 sample={"constructor": kind, "d": d, "skip_checks": skip, "accepted": got[0] == "ok"})
+        ctx.count("ctor:%s:%s" % (kind, "accepted" if got[0] == "ok" else got[1]))
+
+
+def identity_cases(ctx, lines, expect):
+    """`C.init_identity(d)` for each of the twelve classes C and d = 1 .. 4 against the model's `identityOf`; and the
+    oracle: whatever it hands back is neutral for composition on both sides (the property's law with the identity map)"""
+    import numpy as np
+    import menpo.transform as mt
+    rng = ctx.rng
+    for name in FAMILY:
+        for d in (1, 2, 3, 4):
+            cid = "id_%s_%d" % (name, d)
+            rp = {"cls": name, "d": d,
+                  "python": "import sys; sys.path[:0]=[%r]\nimport menpo.transform\ne = menpo.transform.%s.init_identity(%d)"
+                            % (common.REPO, name, d)}
+            try:
+                e = getattr(mt, name).init_identity(d)
+                got = ("ok", kind_of(e), np.asarray(e.h_matrix, dtype=float).copy())
+            except Exception as ex:
+                e, got = None, ("e", ctor_error_kind(ex))
+            lines.append("%s ident %d %s" % (cid, d, name))
+            expect[cid] = (got, rp)
+            ctx.case(("identity", name, d), nontrivial=False)
+            ctx.count("init_identity:%s" % ("ok" if got[0] == "ok" else got[1]))
+            if e is None or d not in (2, 3):
+                continue
+            a = build(gen_atom(rng, rng.choice(FAMILY[:7]), d), [])
+            h0 = a.h_matrix.copy()
+            for meth, x, y in (("compose_before", a, e), ("compose_after", a, e), ("compose_before", e, a), ("compose_after", e, a)):
+                try:
+                    r = getattr(x, meth)(y)
+                    good = is_family(r) and close_arrays(r.h_matrix, h0, float(np.abs(h0).sum()) + 1.0)
+                except Exception as ex:
+                    good = False
+                ctx.check(good, "C03/identity.neutral", "map-differs",
+                          "%s.init_identity(%d) is not neutral for %s with a %s" % (name, d, meth, kind_of(a)), rp)
+
+
+def check_ctor_replies(ctx, model, expect):
+    import numpy as np
+    for cid, (got, rp) in expect.items():
+        rep = model[cid].split()
+        if rep[0] == "e":
+            if not (got[0] == "e" and got[1] == rep[1]):
+                ctx.mismatch("ctor", "model: refused (%s), implementation: %s" % (
+                    rep[1], "refused (%s)" % got[1] if got[0] == "e" else "a %s" % got[1]), rp)
+            continue
+        if rep[0] != "ok" or got[0] != "ok":
+            ctx.mismatch("ctor", "model: %s, implementation: refused (%s)" % (" ".join(rep[:4]), got[1]), rp)
+            continue
+        cell = parse_cell(rep[1:])
+        if not cells_agree(("F", got[2].shape[0] - 1, got[1], got[2]), cell, float(np.abs(got[2]).sum()) + 1.0):
+            ctx.mismatch("ctor", "model %s vs implementation %s %s" % (fmt_cell(cell)[:200], got[1], got[2].tolist()), rp)
+
+
 def check_aux_replies(ctx, model, apply_expect, fv_expect, decomp_expect, aux):
     import numpy as np
     for cid, (y, mag, rp) in apply_expect.items():
@@ -1830,6 +2037,14 @@ def check_aux_replies(ctx, model, apply_expect, fv_expect, decomp_expect, aux):
             if drep[0] == "ok" or odim is not None:
                 ctx.mismatch("chain.dim", "dimension calculus accepts (model %s, harness %r) what the implementation "
                              "refuses with %s" % (" ".join(drep), odim, got[1]), rp)
+    # the dtype of every object after a program
+    for did, (init_tags, final_tags, rp) in aux.get("dtype", {}).items():
+        rep = model[did].split()
+        if rep[0] != "ok" or rep[1:] != final_tags:
+            k = next((i for i, (a, b) in enumerate(zip(rep[1:], final_tags)) if a != b), None)
+            ctx.mismatch("dtype", "dtype of the objects after the program: model %s, implementation %s (atoms were %s)" % (
+                " ".join(rep[1:]) if rep[0] == "ok" else " ".join(rep)[:80], " ".join(final_tags), " ".join(init_tags)),
+                dict(rp, object=k, dtypes_before=init_tags, dtypes_after=final_tags))
     # chains appended to something that contains them
     for cid, (variant, observed, final, rp) in aux["selfc"].items():
         reply = model[cid]
@@ -1906,6 +2121,13 @@ def generated(ctx):
     efiles, failed = trans_c03.entry_generated_files()
     ctx.notes["entry_translation"] = "ok" if not failed else "untranslatable: " + "; ".join(failed)
     common.build_generated(ctx, efiles, trans_c03.ENTRY_TARGETS, trans_c03.ENTRY_OBLIGATIONS)
+    # the NUMPY-LEVEL BODIES of the family (properties, _set_h_matrix / set_rotation_matrix with their checks, the seven
+    # constructors, the seven init_identity, the ten _from_vector_inplace, as_non_alignment through the constructors),
+    # translated with harness/py2lean2.py and proved equal to fromVec / ctorMat / ctorRotation / ctorTranslation /
+    # ctorUniformScale / ctorNonUniformScale / identityOf / anaCtor (GenProps/C03Src.lean)
+    sfiles, sfailed = trans_c03.src_generated_files()
+    ctx.notes["src_translation"] = "ok" if not sfailed else "untranslatable: " + "; ".join(sfailed)
+    common.build_generated(ctx, sfiles, trans_c03.SRC_TARGETS, trans_c03.SRC_OBLIGATIONS)
 
 
 def new_aux():
@@ -1942,6 +2164,15 @@ def search(ctx):
     cross_dimension_battery(ctx, w2, sink, "x", new_aux())
     nested_chain_battery(ctx, w2, sink, "n", new_aux())
     ctx.searched += len(sink)
+    if ctx.failures:
+        return True
+    # what the translated constructors / init_identity / from_vector bodies feed: decompositions (Rotation, Scale and
+    # Translation built from the SVD factors, folded back with compose_before), the identities of all classes as
+    # operands, from_vector matrices (oracle only: receiver untouched)
+    decompose_cases(ctx, 400, [], {})
+    identity_cases(ctx, [], {})
+    fromvec_cases(ctx, 300, [], {})
+    ctx.searched += 700
     if ctx.failures:
         return True
     for k in range(60):
@@ -1983,8 +2214,12 @@ def run(ctx):
     fromvec_cases(ctx, ctx.n(80, 1200), lines, fv_expect)
     decompose_cases(ctx, ctx.n(60, 1200), lines, dc_expect)
     withdims_battery(ctx, ctx.n(40, 600))
+    ct_expect = {}
+    ctor_cases(ctx, ctx.n(120, 1500), lines, ct_expect)
+    identity_cases(ctx, lines, ct_expect)
     model = flush(ctx, pending, lines + aux["lines"])
     check_aux_replies(ctx, model, ap_expect, fv_expect, dc_expect, aux)
+    check_ctor_replies(ctx, model, ct_expect)
     return ctx.finish(search)
 
 
